@@ -83,12 +83,25 @@ ScopeToLabels(q, L, by) ==
              lwo == IF q.by THEN L ELSE q.ls
          IN [set |-> TRUE, by |-> TRUE, ls |-> lby \ lwo]
 
+(* metric names the vector selectors below e are pinned to ("*" = not pinned) *)
+RECURSIVE SelNames(_)
+SelNames(e) ==
+    CASE e.k = "sel" -> {e.name}
+      [] e.k = "agg" -> SelNames(e.e)
+      [] e.k = "bin" -> SelNames(e.l) \cup SelNames(e.r)
+      [] e.k = "lrep" -> SelNames(e.e)
+SeveralNames(e) == "*" \in SelNames(e) \/ Cardinality(SelNames(e)) > 1
+
 (* parser.Inspect is a pre-order depth-first walk: node, then children left to right.  *)
 (* Walk threads [an, dyn] through the tree.                                            *)
 RECURSIVE Walk(_, _)
 Walk(e, st) ==
     CASE e.k = "sel" -> st
-      [] e.k = "agg" -> Walk(e.e, [st EXCEPT !.an = ScopeToLabels(st.an, e.ls, e.by)])
+      [] e.k = "agg" -> (* `without` also drops the metric name from the grouping key: when the operand *)
+                        (* may carry several metric names the name must not take part in the shard    *)
+                        (* key either (same as `ignoring` below)                                      *)
+                        LET L == IF ~e.by /\ SeveralNames(e.e) THEN e.ls \cup {MetricName} ELSE e.ls
+                        IN Walk(e.e, [st EXCEPT !.an = ScopeToLabels(st.an, L, e.by)])
       [] e.k = "bin" -> LET L == IF e.on THEN e.ls ELSE e.ls \cup {MetricName}
                             st1 == [st EXCEPT !.an = ScopeToLabels(st.an, L, e.on)]
                         IN Walk(e.r, Walk(e.l, st1))
